@@ -45,7 +45,7 @@ def check_dnskey_wire(acc, rdata, label, extra=None):
             # the uncompressed form of a curve point"); rejecting it with a documented error is allowed
             acc.count('zero_coordinate_non_points_rejected')
             return
-        acc.violation('dnskey:rejected:%s:%s' % (label, type(e).__name__), 'conformant DNSKEY RDATA (%s) rejected: %s'
+        acc.violation('dnskey:rejected:%s:%s' % (label, core.ename(e)), 'conformant DNSKEY RDATA (%s) rejected: %s'
                       % (label, str(e)[:60]), w)
         return
     except Exception:  # noqa - undocumented exception type: a C02 finding (e.g. coordinates that are not on the curve)
@@ -55,7 +55,7 @@ def check_dnskey_wire(acc, rdata, label, extra=None):
     try:
         tag = o.key_tag
     except Exception as e:  # noqa
-        acc.violation('dnskey:key_tag_raises:%s:%s' % (label, type(e).__name__), 'key_tag raises %s' % type(e).__name__, w)
+        acc.violation('dnskey:key_tag_raises:%s:%s' % (label, core.ename(e)), 'key_tag raises %s' % core.ename(e), w)
         tag = None
     reserved_bits_set = bool(int.from_bytes(rdata[:2], 'big') & ~(0x0001 | 0x0080 | 0x0100))
     if tag is not None and tag != exp_tag and not reserved_bits_set:
@@ -65,7 +65,7 @@ def check_dnskey_wire(acc, rdata, label, extra=None):
     try:
         back = bytes(o.compose())
     except Exception as e:  # noqa
-        acc.violation('dnskey:compose_raises:%s:%s' % (label, type(e).__name__), 'parsed DNSKEY cannot be composed', w)
+        acc.violation('dnskey:compose_raises:%s:%s' % (label, core.ename(e)), 'parsed DNSKEY cannot be composed', w)
         return
     exp = (int.from_bytes(rdata[:2], 'big') & known_bits).to_bytes(2, 'big') + rdata[2:]
     if back != exp:
@@ -162,7 +162,7 @@ def _other_records_worker(_):
         try:
             o = cls.parse_exact_size(wire)
         except Exception as e:  # noqa
-            acc.violation('%s:rejected:%s' % (label, type(e).__name__), 'conformant %s RDATA rejected: %s'
+            acc.violation('%s:rejected:%s' % (label, core.ename(e)), 'conformant %s RDATA rejected: %s'
                           % (label, str(e)[:60]), w)
             return
         problem = fields_check(o)
@@ -173,7 +173,7 @@ def _other_records_worker(_):
             if back != wire:
                 acc.violation('%s:not_reproduced' % label, '%s RDATA is not reproduced' % label, w)
         except Exception as e:  # noqa
-            acc.violation('%s:compose_raises:%s' % (label, type(e).__name__), 'parsed %s cannot be composed' % label, w)
+            acc.violation('%s:compose_raises:%s' % (label, core.ename(e)), 'parsed %s cannot be composed' % label, w)
         acc.state(core.h64(label, wire))
     # DS: every algorithm x digest type x digest length
     for a in A:
@@ -243,7 +243,7 @@ def _other_records_worker(_):
             try:
                 o = rec.DnsRecordTxt.parse_exact_size(wire)
             except Exception as e:  # noqa
-                acc.violation('%s:rejected:%s' % (label, type(e).__name__), 'conformant TXT RDATA rejected', w)
+                acc.violation('%s:rejected:%s' % (label, core.ename(e)), 'conformant TXT RDATA rejected', w)
                 continue
             if o.value.encode('ascii') != text:
                 acc.violation('%s:fields:value' % label, 'TXT strings not recovered', w)
@@ -257,7 +257,7 @@ def _other_records_worker(_):
                 if got != text:
                     acc.violation('%s:not_reproduced' % label, 'TXT data is not reproduced by compose', w)
             except Exception as e:  # noqa
-                acc.violation('%s:compose_raises:%s:%s' % (label, type(e).__name__, 'gt255' if total > 255 else 'le255'),
+                acc.violation('%s:compose_raises:%s:%s' % (label, core.ename(e), 'gt255' if total > 255 else 'le255'),
                               'parsed TXT (%d bytes of text) cannot be composed' % total, w)
             acc.state(core.h64('txt', wire))
     acc.sample({'kind': 'rrsig', 'rdata': ref.rrsig(1, 8, 2, 300, 1, 0, 5, ['a'], b's')}, 1)
